@@ -396,9 +396,6 @@ inst!(cur_insert_p2e0_n1, 8, cur_insert, 2, 0, 1);
 inst!(cur_insert_p3e0_n1, 8, cur_insert, 3, 0, 1);
 inst!(cur_insert_p3e1_n1, 8, cur_insert, 3, 1, 1);
 inst!(cur_insert_p3e2_n1, 8, cur_insert, 3, 2, 1);
-inst!(cur_insert_p0e0_n2, 8, cur_insert, 0, 0, 2);
-inst!(cur_insert_p1e0_n2, 8, cur_insert, 1, 0, 2);
-inst!(cur_insert_p2e0_n2, 8, cur_insert, 2, 0, 2);
 inst!(cur_insert_p3e0_n2, 8, cur_insert, 3, 0, 2);
 inst!(cur_insert_p3e1_n2, 8, cur_insert, 3, 1, 2);
 inst!(cur_insert_p3e2_n2, 8, cur_insert, 3, 2, 2);
